@@ -99,8 +99,8 @@ FUNCS = [
     Fn("allocation_limit", "bump", "read", group="Limit"),
     Fn("allocation_limit_remaining", "bump", "read", group="Limit"),
     Fn("chunk_capacity", "bump", "read", group="Limit"),
-    Fn("is_empty", "chunk", "read", group="Fast", anchor="impl ChunkFooter"),
-    Fn("set_ptr", "chunk", "st", group="Fast", anchor="impl ChunkFooter"),
+    Fn("is_empty", "chunk", "read", group="Footer", anchor="impl ChunkFooter"),
+    Fn("set_ptr", "chunk", "st", group="Footer", anchor="impl ChunkFooter"),
     Fn("try_alloc_layout_fast", "bump", "st", group="Fast"),
     Fn("is_last_allocation", "bump", "read", group="Realloc"),
     Fn("try_alloc_layout", "bump", "st", group="Realloc"),
@@ -984,7 +984,8 @@ def translate_all(repo):
     return groups, report
 
 
-GROUP_IMPORTS = {"Arith": [], "Details": ["Arith"], "Limit": ["Arith"], "Fast": ["Arith"], "Realloc": ["Arith", "Fast", "Limit"]}
+GROUP_IMPORTS = {"Arith": [], "Details": ["Arith"], "Limit": ["Arith"], "Footer": ["Arith"], "Fast": ["Arith", "Footer"],
+                 "Realloc": ["Arith", "Fast", "Footer", "Limit"]}
 
 
 def run(repo, out_dir, write_if_changed):
